@@ -623,8 +623,384 @@ def part_b(ctx, stats):
     return len(progs), [render_items(progs[len(FIXED_PROGRAMS)])[len(HEADER):], render_items(progs[-1])[len(HEADER):]]
 
 
+# --------------------------------------------------------------------------- part (c): firmware values vs CPython values
+KORD = {"bool": 0, "int": 1, "float": 2, "str": 9}
+LABEL_KIND = {"bool": "bool", "int": "int", "float": "float", "String": "str"}
+
+# helper-function templates: source lines, arity, result kind as a function of the argument kinds
+def _join(*ks):
+    return "float" if "float" in ks else "int"
+
+
+FUNC_TEMPLATES = [
+    ("ident", 1, ["return p"], lambda k: k[0]),
+    ("addq", 2, ["z = p + q", "return z"], lambda k: _join(*k)),
+    ("pick", 1, ["if p > 1:", "    return 1", "return 2.5"], lambda k: "float"),
+    ("scale", 2, ["w = p * 2", "if q > 0:", "    return w", "return 0.5"], lambda k: "float"),
+    ("flag", 1, ["if p > 2:", "    return True", "return False"], lambda k: "bool"),
+    ("twice", 1, ["return ident(p) + ident(p)"], lambda k: _join(k[0])),          # a helper calling a helper
+    ("count", 1, ["n = p + 0", "for i in range(3):", "    n = n + p", "return n"], lambda k: _join(k[0])),
+    ("hoist", 1, ["if p > 1:", "    y = p * 0.5", "else:", "    y = 1.5", "return y"], lambda k: "float"),
+]
+
+
+class RunGen:
+    """runnable programs inside the guard: every name is declared by its first assignment (text order) with kind K,
+    later assignments have kind <= K (bool < int < float, str alone); a name whose current label is below its
+    declared kind is not read by a right-hand side until it is re-assigned at its declared kind; names first
+    assigned inside a nested block keep one kind; helper bodies read only parameters and locals."""
+
+    def __init__(self, rng):
+        self.rng = rng
+        self.decl = {}            # name -> declared kind (whole program: names are distinct per scope)
+        self.fresh = 0
+        self.mixed = 0            # assignments of a narrower kind into a wider variable
+        self.calls = 0
+        self.used_funcs = set()
+
+    def newname(self, prefix="v"):
+        self.fresh += 1
+        return f"{prefix}{self.fresh}"
+
+    # ---- typed expressions (rd: dict kind -> readable names)
+    def int_e(self, d, rd):
+        rng = self.rng
+        if d <= 0 or rng.random() < 0.35:
+            r = rng.random()
+            if r < 0.45 and rd["int"]:
+                return rng.choice(rd["int"])
+            if r < 0.52 and rd["bool"]:
+                return f"({rng.choice(rd['bool'])} + {rng.choice([0, 1, 2])})"
+            return str(rng.choice([0, 1, 2, 3, 5, 7, 10, 12, 255]))
+        r = rng.random()
+        if r < 0.55:
+            return f"({self.int_e(d - 1, rd)} {rng.choice(['+', '-', '*'])} {self.int_e(d - 1, rd)})"
+        if r < 0.65:
+            return f"abs({self.int_e(d - 1, rd)} - 7)"
+        if r < 0.75:
+            return f"{rng.choice(['min', 'max'])}({self.int_e(d - 1, rd)}, {self.int_e(d - 1, rd)})"
+        if r < 0.87:
+            return f"({self.int_e(d - 1, rd)} if {self.bool_e(d - 1, rd)} else {self.int_e(d - 1, rd)})"
+        return f"int({self.float_e(d - 1, rd)})"
+
+    def float_e(self, d, rd):
+        rng = self.rng
+        if d <= 0 or rng.random() < 0.35:
+            if rd["float"] and rng.random() < 0.5:
+                return rng.choice(rd["float"])
+            return repr(rng.choice([0.5, 2.5, 1.0, 7.75, 0.25, 3.0, 12.5]))
+        r = rng.random()
+        if r < 0.30:
+            return f"({self.int_e(d - 1, rd)} * {rng.choice(['0.5', '2.5', '1.0'])})"
+        if r < 0.55:
+            return f"({self.float_e(d - 1, rd)} {rng.choice(['+', '-', '*'])} {self.float_e(d - 1, rd)})"
+        if r < 0.68:
+            return f"({self.float_e(d - 1, rd)} {rng.choice(['+', '-'])} {self.int_e(d - 1, rd)})"
+        if r < 0.78:
+            return f"float({self.int_e(d - 1, rd)})"
+        if r < 0.90:
+            return f"({self.int_e(d - 1, rd)} / {rng.choice(['4.0', '2.0', '0.5'])})"
+        return f"({self.float_e(d - 1, rd)} if {self.bool_e(d - 1, rd)} else {self.float_e(d - 1, rd)})"
+
+    def bool_e(self, d, rd):
+        rng = self.rng
+        if d <= 0 or rng.random() < 0.3:
+            if rd["bool"] and rng.random() < 0.5:
+                return rng.choice(rd["bool"])
+            return rng.choice(["True", "False"])
+        r = rng.random()
+        if r < 0.4:
+            return f"({self.int_e(d - 1, rd)} {rng.choice(['<', '>', '==', '!=', '<=', '>='])} {self.int_e(d - 1, rd)})"
+        if r < 0.6:
+            return f"({self.float_e(d - 1, rd)} {rng.choice(['<', '>'])} {self.float_e(d - 1, rd)})"
+        if r < 0.75:
+            return f"(not {self.bool_e(d - 1, rd)})"
+        return f"({self.bool_e(d - 1, rd)} {rng.choice(['and', 'or'])} {self.bool_e(d - 1, rd)})"
+
+    def str_e(self, d, rd):
+        rng = self.rng
+        if d <= 0 or rng.random() < 0.45:
+            if rd["str"] and rng.random() < 0.5:
+                return rng.choice(rd["str"])
+            return repr(rng.choice(["x", "ab", "", "v="]))
+        if rd["str"] and rng.random() < 0.6:
+            return f"({rng.choice(rd['str'])} + {self.str_e(d - 1, rd)})"       # a String variable on the left: "x" + "y" is not C++
+        return f"str({self.int_e(d - 1, rd)} + 0)"      # + 0: str(True) is "True" but String(true) is "1" (text form of bool: C01's subject)
+
+    def expr(self, kind, d, rd):
+        return {"int": self.int_e, "float": self.float_e, "bool": self.bool_e, "str": self.str_e}[kind](d, rd)
+
+    def arg_e(self, kind, rd):
+        """call arguments are variables or int/bool literals, so that the C++ argument type is exactly the label
+        (a float literal is a double and makes a call with two variants ambiguous: compilability is C06's subject)"""
+        rng = self.rng
+        if rd[kind] and (kind == "float" or rng.random() < 0.6):
+            return rng.choice(rd[kind])
+        if kind == "int":
+            return str(rng.choice([0, 1, 2, 3, 7]))
+        if kind == "bool":
+            return rng.choice(["True", "False"])
+        return None
+
+    def call_e(self, rd, want, exact):
+        """a call of a helper template whose result kind is <= want (== want if exact); returns (src, kind) or None"""
+        rng = self.rng
+        for _ in range(8):
+            name, ar, _, resk = rng.choice(FUNC_TEMPLATES)
+            ks = [rng.choice(["int", "int", "float", "bool"]) for _ in range(ar)]
+            k = resk(ks)
+            args = [self.arg_e(x, rd) for x in ks]
+            if None in args:
+                continue
+            if (k == want if exact else KORD[k] <= KORD[want]) and want != "str":
+                self.used_funcs.add(name)
+                if name == "twice":
+                    self.used_funcs.add("ident")
+                self.calls += 1
+                return f"{name}(" + ", ".join(args) + ")", k
+        return None
+
+    # ---- statements.  st: {"assigned": set, "label_ok": set} ; names in both are readable
+    def rd(self, st):
+        out = {"int": [], "float": [], "bool": [], "str": []}
+        for n in sorted(st["assigned"] & st["label_ok"]):
+            out[self.decl[n]].append(n)
+        return out
+
+    def assign(self, st, nested, allow_new=True):
+        rng = self.rng
+        rd = self.rd(st)
+        existing = sorted(n for n in self.decl if n in st["known"])
+        if existing and (not allow_new or rng.random() < 0.6):
+            x = rng.choice(existing)
+            K = self.decl[x]
+            if K == "str" or x in st["nested_names"]:
+                k = K
+            else:
+                k = rng.choice([kk for kk in ("bool", "int", "float") if KORD[kk] <= KORD[K]])
+        else:
+            x = self.newname()
+            K = k = rng.choice(["int", "int", "float", "float", "bool", "str"])
+            self.decl[x] = K
+            st["known"].add(x)
+            if nested:
+                st["nested_names"].add(x)
+        src = None
+        if K != "str" and rng.random() < 0.22:
+            c = self.call_e(rd, k, exact=(K == k))
+            if c:
+                src, k = c
+        if src is None:
+            src = self.expr(k, rng.choice([0, 1, 1, 2]), rd)
+        if k != K:
+            self.mixed += 1
+            st["label_ok"].discard(x)
+        else:
+            st["label_ok"].add(x)
+        st["assigned"].add(x)
+        return [("assign", x, src), ("write", x)]
+
+    def block(self, st, depth, nested, n=None):
+        rng = self.rng
+        out = []
+        for _ in range(n if n is not None else rng.choice([2, 3, 4])):
+            r = rng.random()
+            if depth > 0 and r < 0.2:
+                brs = []
+                for _ in range(rng.choice([1, 1, 2])):
+                    c = self.bool_e(1, self.rd(st))
+                    brs.append((c, self.block(self.child(st), depth - 1, True)))
+                els = self.block(self.child(st), depth - 1, True) if rng.random() < 0.6 else None
+                out.append(("if", brs, els))
+            elif depth > 0 and r < 0.30:
+                i = self.newname("i")
+                self.decl[i] = "int"
+                ch = self.child(st)
+                ch["assigned"].add(i); ch["label_ok"].add(i)
+                out.append(("for", i, str(rng.choice([1, 2, 3])), self.block(ch, depth - 1, True)))
+            elif depth > 0 and r < 0.38:
+                k = self.newname("k")
+                self.decl[k] = "int"
+                st["assigned"].add(k); st["label_ok"].add(k)          # readable, never re-assigned by generated statements
+                out.append(("assign", k, "0"))
+                ch = self.child(st)
+                body = self.block(ch, depth - 1, True) + [("assign", k, f"{k} + 1")]
+                out.append(("while", f"{k} < {rng.choice([1, 2, 3])}", body))
+            else:
+                out += self.assign(st, nested)
+        return out
+
+    @staticmethod
+    def child(st):
+        return {"assigned": set(st["assigned"]), "label_ok": set(st["label_ok"]), "known": st["known"],
+                "nested_names": st["nested_names"]}
+
+    def program(self):
+        rng = self.rng
+        st = {"assigned": set(), "label_ok": set(), "known": set(), "nested_names": set()}
+        top = self.block(st, 2, False, n=rng.choice([4, 5, 6, 7]))
+        loop = None
+        if rng.random() < 0.6:
+            r = self.newname("r")
+            self.decl[r] = "int"
+            st["known"].add(r); st["assigned"].add(r); st["label_ok"].add(r)
+            loop = [("assign", r, "analog_read(\"A0\")"), ("write", r)] + self.block(st, 1, False, n=rng.choice([2, 3, 4]))
+        items = []
+        for name, ar, body, _ in FUNC_TEMPLATES:
+            if name in self.used_funcs:
+                items.append(("rawdef", name, ["p", "q"][:ar], body))
+        stmts = [("stmt", s_) for s_ in top]
+        first_src = render_run(stmts[:1])
+        defs_first = rng.random() < 0.75 or any((name + "(") in first_src for name, _, _, _ in FUNC_TEMPLATES)
+        items = (items + stmts) if defs_first else (stmts[:1] + items + stmts[1:])
+        if loop is not None:
+            items.append(("loop", loop))
+        return items
+
+
+def render_run(items) -> str:
+    out = [HEADER]
+    for it in items:
+        if it[0] == "rawdef":
+            out.append(f"def {it[1]}({', '.join(it[2])}):\n")
+            for ln in it[3]:
+                out.append("    " + ln + "\n")
+        elif it[0] == "stmt":
+            render_block([it[1]], 0, out)
+        else:
+            out.append("while True:\n")
+            render_block(it[1], 1, out)
+    return "".join(out)
+
+
+def _num(sx):
+    try:
+        return float(sx)
+    except ValueError:
+        return None
+
+
+def same_value_line(fw_text, py_payload):
+    """device Serial line vs CPython value at VALUE level: numbers numerically (bool = 0/1, 2 printed decimals), str exactly"""
+    if "\t" in py_payload:
+        text, ty = py_payload.rsplit("\t", 1)
+    else:
+        text, ty = py_payload, "str"
+    if ty == "bool":
+        b = _num(fw_text)
+        return b is not None and abs(b - (1.0 if text == "True" else 0.0)) < 1e-9
+    if ty in ("int", "float"):
+        x, y = _num(fw_text), _num(text)
+        if x is None or y is None:
+            return False
+        tol = 0.0051 if ("." in fw_text or ty == "float") else 0.0
+        return abs(x - y) <= tol + 1e-6 * abs(y)
+    return fw_text == text
+
+
+def compare_values(fw_events, py_events):
+    a = [e for e in fw_events if e.startswith("S ")]
+    b = [e for e in py_events if e.startswith("S ")]
+    for i in range(min(len(a), len(b))):
+        if not same_value_line(a[i][2:], b[i][2:]):
+            return {"index": i, "fw": a[i], "py": b[i]}
+    if len(a) != len(b):
+        n = min(len(a), len(b))
+        return {"index": n, "fw": a[n] if n < len(a) else None, "py": b[n] if n < len(b) else None}
+    return None
+
+
+def run_value_pairs(srcs, inputs, loops):
+    tr = fw.transpile_many(srcs)
+    py = fw.pyrun_many([{"src": s_, "input": i, "loops": l} for s_, i, l in zip(srcs, inputs, loops)])
+    jobs, idx = [], []
+    for k, (t, i, l) in enumerate(zip(tr, inputs, loops)):
+        if t["ok"]:
+            jobs.append({"cpp": t["cpp"], "input": i, "loops": l})
+            idx.append(k)
+    res = dict(zip(idx, fw.run_sketches(jobs)))
+    out = []
+    for k, (t, y) in enumerate(zip(tr, py)):
+        if not t["ok"]:
+            out.append({"status": "rejected", "exc": t["exc"], "msg": t.get("msg")})
+            continue
+        r = res[k]
+        if y["exc"]:
+            out.append({"status": "py-undefined", "exc": y["exc"]})
+        elif not r["compiled"]:
+            out.append({"status": "nocompile", "log": r["compile_log"][-800:], "cpp": t["cpp"]})
+        elif r["rc"] != 0:
+            out.append({"status": "fw-crash", "rc": r["rc"], "stderr": r["stderr"][-400:]})
+        else:
+            d = compare_values(r["events"], y["events"])
+            out.append({"status": "equal" if d is None else "DIFF", "diff": d, "cpp": t["cpp"],
+                        "n_values": sum(1 for e in y["events"] if e.startswith("S ")),
+                        "fw": [e for e in r["events"] if e.startswith("S ")][:40],
+                        "py": [e for e in y["events"] if e.startswith("S ")][:40]})
+    return out
+
+
+WITNESSES = {
+    "F-C02-first-assignment-fixes-type": {"body": "a = 1\nmon.write(a)\na = 2.5\nmon.write(a)\n", "loops": 0},
+    "F-C02-hoisted-branch-type": {"body": "c = 0\nif c > 1:\n    x = 1\nelse:\n    x = 2.5\nmon.write(x)\n", "loops": 0},
+    "F-C02-aug-assign-narrowed": {"body": "a = 1\na += 0.5\nmon.write(a)\n", "loops": 0},
+    "F-C02-flow-insensitive-label": {"body": "a = 2.5\na = 1\nk = 0\nwhile k < 2:\n    b = a\n    mon.write(b)\n    a = a + 0.5\n    k = k + 1\n", "loops": 0},
+    "F-C02-abs-min-max-float-typed-int": {"body": "x = abs(-2.5)\nmon.write(x)\ny = max(1, 2.5)\nmon.write(y)\n", "loops": 0},
+    "F-C02-int-division-typed-int": {"body": "n = 7\nh = n / 2\nmon.write(h)\n", "loops": 0},
+    "F-C02-boolop-typed-bool": {"body": "n = 0\nv = n or 5\nmon.write(v)\n", "loops": 0},
+}
+
+
+def part_c(ctx, stats):
+    rng = ctx.rng
+    n = 420 if ctx.tier == "thorough" else 48
+    gens, progs = [], []
+    for _ in range(n):
+        g = RunGen(rng)
+        progs.append(g.program())
+        gens.append(g)
+    srcs = [render_run(p) for p in progs]
+    loops = [(rng.choice([1, 2]) if p and p[-1][0] == "loop" else 0) for p in progs]
+    inputs = ["ar 14 %s\n" % " ".join(str(rng.choice([0, 5, 300, 1023, 512])) for _ in range(4)) for _ in progs]
+    res = run_value_pairs(srcs, inputs, loops)
+    st = {}
+    nontrivial = set()
+    values = 0
+    for src, g, l, i, r in zip(srcs, gens, loops, inputs, res):
+        st[r["status"]] = st.get(r["status"], 0) + 1
+        case = {"script": src, "input": i, "loops": l}
+        if r["status"] == "DIFF":
+            ctx.fail("a value on the device differs from the value CPython holds (program inside the guard)", case,
+                     r["py"], {"first_difference": r["diff"], "firmware": r["fw"], "cpp": r["cpp"]}, key="value-diff")
+        elif r["status"] == "nocompile":
+            ctx.fail("accepted script inside the guard does not compile", case, "compilable C++", r["log"], key="nocompile")
+        elif r["status"] == "fw-crash":
+            ctx.fail("firmware crashed", case, "rc 0", r, key="fw-crash")
+        elif r["status"] == "rejected":
+            ctx.fail(f"transpiler rejected a program inside the guard ({r['exc']})", case, "accepted", r, key="rejected")
+        elif r["status"] == "equal":
+            values += r["n_values"]
+            if r["n_values"] >= 4:
+                nontrivial.add(src)
+    stats["value_programs"] = {"programs": n, "by_status": st, "values_compared": values,
+                               "assignments_of_a_narrower_kind_into_a_wider_variable": sum(g.mixed for g in gens),
+                               "helper_calls": sum(g.calls for g in gens),
+                               "programs_with_main_loop": sum(1 for l in loops if l)}
+    stats["value_distinct_nontrivial"] = len(nontrivial)
+    # known findings: replay every listed witness on the real code
+    listed = {f["id"]: f for f in ctx.findings if f.get("kind") != "fixed" and f["id"] in WITNESSES}
+    if listed:
+        ids = list(listed)
+        wres = run_value_pairs([HEADER + WITNESSES[i]["body"] for i in ids], ["" for _ in ids], [WITNESSES[i]["loops"] for i in ids])
+        for i, r in zip(ids, wres):
+            if r["status"] in ("DIFF", "nocompile"):
+                ctx.known(f"{i}: {listed[i]['what']}")
+    return n + values, [srcs[0][len(HEADER):]]
+
+
 def run(ctx: C.Ctx):
     stats = {}
     n = part_a(ctx, stats)
     nb, samples_b = part_b(ctx, stats)
-    ctx.coverage.update({"evaluations": n + nb, "distribution": stats, "samples": samples_b})
+    nc, samples_c = part_c(ctx, stats)
+    ctx.coverage.update({"evaluations": n + nb + nc, "distribution": stats, "samples": samples_b[:1] + samples_c})
